@@ -63,6 +63,15 @@ broadcast use {crate::bitlemmas::bits64, vstd::arithmetic::mul::group_mul_basics
     proof { lemma_div_round_fits(n as int, d as int); }
 //@ end
 
+//@ fn math/bit_math.rs div_round_up_if_u256 -> r
+    requires d.view() != 0,
+    ensures
+        div_round(n.view(), d.view(), round_up) > U128MAX() ==> r == Err::<u128, ErrorCode>(ErrorCode::NumberDownCastError),
+        div_round(n.view(), d.view(), round_up) <= U128MAX() ==> r == Ok::<u128, ErrorCode>(div_round(n.view(), d.view(), round_up) as u128),
+//@ inject at /^\{/
+    proof { lemma_view_bounds(n); lemma_view_bounds(d); lemma_div_round_fits(n.view(), d.view()); }
+//@ end
+
 /// n % d > 0 forces d >= 2, hence n / d + 1 <= n (for n >= 1): rounding up never overflows the type of n.
 pub proof fn lemma_div_round_fits(n: int, d: int)
     requires n >= 0, d > 0,
